@@ -342,3 +342,22 @@ func (w *W) StartWatchdog(limit time.Duration) {
 }
 
 func (w *W) StopWatchdog() { w.caseStart.Store(0) }
+
+// BuildDirName: the directory (under the verification root) that holds the binaries
+// and scratch files of this run. Runs with a mutation patch use a directory of their
+// own so that they can never be mixed up with checks of the real tree.
+func BuildDirName() string {
+	if d := os.Getenv("VERIF_BUILD"); d != "" {
+		return d
+	}
+	return ".build"
+}
+
+// OutDir: where evidence/ and replays/ are written (the verification root, except for
+// mutation runs).
+func OutDir(root string) string {
+	if d := os.Getenv("VERIF_OUT"); d != "" {
+		return d
+	}
+	return root
+}
